@@ -38,6 +38,9 @@ func allPairs() []pairDef {
 				wh.F("empty0", ""),
 				wh.F("empty1", ""),
 				wh.F("tiny.txt", "=hello"),
+				// one fresh byte, then blocks of the old build: a checkpoint between the two ops
+				// carries a writer offset of exactly 1
+				wh.F("one-then-blocks", "=z.S.T"),
 			},
 		},
 		{
